@@ -191,12 +191,13 @@ def c17(rep, W, rule="C17", sections=None):
         roots = [x[1] for x in P.walk(term) if x[0] == "call" and x[1] in allowed_fail]
         others = [x[1] for x in P.walk(term) if x[0] == "call" and x[1] not in allowed_fail and not x[1].startswith("core::") and x[1] not in (
             WD.SERVER + "::ServerArgs::new", WD.SERVER + "::command", "clap_builder::builder::command::Command::get_matches")]
-        mr = m(call(S.FROM_RESIDUAL, ("err", V("x"))), term)
         src = None
-        if mr is not None:
-            x = mr["x"]
-            while x[0] in ("ok", "mut") or (x[0] == "call" and x[1] in ("core::future::future::Future::poll",)):
-                x = x[1] if x[0] == "ok" else (x[3] if x[0] == "mut" else x[3][0])
+        if term[0] == "call" and term[1] == S.FROM_RESIDUAL and term[3]:
+            # the call whose failure is propagated: through `?` layers (a desugared try_fold re-propagates the closure's
+            # residual), success payloads, awaited futures
+            x = term
+            while x[0] in ("ok", "err", "mut") or (x[0] == "call" and x[1] in ("core::future::future::Future::poll", S.FROM_RESIDUAL) and x[3]):
+                x = x[1] if x[0] in ("ok", "err") else (x[3] if x[0] == "mut" else x[3][0])
             src = x[1] if x[0] == "call" else None
         rep.ob(rule + ".STARTUP", (fn, "failure-mode", (src or "?").split("::")[-1]), src in allowed_fail,
                "main can fail through %s: %s" % (src, allowed_fail.get(src, "NOT an enumerated start-up / shutdown failure mode -- a restart on the same data directory might be refused")),
@@ -220,12 +221,14 @@ def c17(rep, W, rule="C17", sections=None):
         fl = dict(term[2])
         for fname, (aid, getter) in want_ids.items():
             t = fl.get(fname, ("unknown",))
-            gets = [x for x in P.walk(t) if x[0] == "call" and x[1].startswith("clap_builder::parser::matches::arg_matches::ArgMatches::get_")]
+            gets = list(set(x for x in P.walk_deep(t) if x[0] == "call" and x[1].startswith("clap_builder::parser::matches::arg_matches::ArgMatches::get_")))
             okf = len(gets) == 1 and gets[0][1].endswith("::" + getter) and H.const_str(gets[0][3][1]) == aid
             rep.ob(rule + ".ARGS", ("ServerArgs::new", fname), okf,
                    "ServerArgs.%s is read from %s; must be %s(\"%s\")" % (fname, [(x[1].split("::")[-1], H.const_str(x[3][1])) for x in gets], getter, aid), where(ab))
         al = fl.get("client_id_allowlist", ("unknown",))
-        rep.ob(rule + ".ARGS", ("ServerArgs::new", "absent-list-is-None"), al[0] == "call" and al[1] == "core::option::Option::<T>::map",
+        gm = [x for x in P.walk_deep(al) if x[0] == "call" and x[1].endswith("ArgMatches::get_many")]
+        okn = len(set(gm)) == 1 and S.option_map_of(W.gea(ab), W.prov(ab), al, gm[0]) is not None
+        rep.ob(rule + ".ARGS", ("ServerArgs::new", "absent-list-is-None"), okn,
                "client_id_allowlist is %s; an absent option must stay None (= allow everybody), e.g. not unwrap_or_default (= allow nobody)" % P.show(al)[:120], where(ab))
     # command(): id <-> env agreement
     cb = W.body(COMMAND)
@@ -718,10 +721,10 @@ def c06(rep, W, rule="C06"):
                 core = core[1]
                 depth += 1
             okc = core[0] == "call" and core[1] == "core::future::future::Future::poll" and depth == 3 and \
-                any(x[0] == "call" and x[1] == "futures_util::stream::stream::StreamExt::next" and _is_request_payload(body, x[3][0]) for x in P.walk(core))
+                any(x[0] == "call" and x[1] in H.STREAM_PULL and _is_request_payload(body, x[3][0]) for x in P.walk(core))
             rep.ob(rule + ".ACCUM", (fn, "appends-whole-chunk", S.ordinal_key(body, c, bb)), okc,
-                   "appended slice is %s; must be the whole chunk yielded by payload.next().await (no index / split / slice / timeout wrapper)" % P.show(chunk)[:140], where(body, bb))
-            nxt = [x for x in P.walk(core) if x[0] == "call" and x[1] == "futures_util::stream::stream::StreamExt::next"]
+                   "appended slice is %s; must be the whole chunk yielded by payload.next().await / payload.try_next().await (no index / split / slice / timeout wrapper)" % P.show(chunk)[:140], where(body, bb))
+            nxt = [x for x in P.walk(core) if x[0] == "call" and x[1] in H.STREAM_PULL]
             if nxt:
                 nbb = nxt[0][2]
                 chunk_atom = ("VARIANT", chunk[1])   # ok(ok(poll)) : Result<Bytes,_> is Ok
